@@ -27,6 +27,12 @@ type ClientTransport struct {
 	callbacks *transport.Callbacks
 	pollExit  chan any
 	once      sync.Once
+
+	// Pause / Resume (used while the socket probes another transport).
+	pauseMu sync.Mutex
+	paused  bool
+	idle    chan struct{} // closed once the poll loop has stopped polling
+	resume  chan struct{} // closed by Resume
 }
 
 func NewClientTransport(
@@ -98,6 +104,15 @@ func (t *ClientTransport) Run() {
 		case <-t.pollExit:
 			return
 		default:
+			if resume := t.parkIfPaused(); resume != nil {
+				// No request is in flight and every packet received so far was handed to onPacket.
+				select {
+				case <-resume:
+				case <-t.pollExit:
+					return
+				}
+				continue
+			}
 			packets, err := t.poll()
 			if err != nil {
 				t.close(err)
@@ -209,6 +224,46 @@ func (t *ClientTransport) Send(packets ...*parser.Packet) {
 		t.close(fmt.Errorf("polling: invalid response received"))
 		return
 	}
+}
+
+// Pause makes the poll loop stop issuing polls. The returned channel is closed once the poll that
+// was in flight (if any) has returned and its packets were handed to the onPacket callback, i.e.
+// when nothing more will be delivered by this transport until Resume is called.
+// Packets can still be sent while the transport is paused.
+func (t *ClientTransport) Pause() (stopped <-chan struct{}) {
+	t.pauseMu.Lock()
+	defer t.pauseMu.Unlock()
+	if !t.paused {
+		t.paused = true
+		t.idle = make(chan struct{})
+		t.resume = make(chan struct{})
+	}
+	return t.idle
+}
+
+// Resume makes a paused poll loop poll again.
+func (t *ClientTransport) Resume() {
+	t.pauseMu.Lock()
+	defer t.pauseMu.Unlock()
+	if t.paused {
+		t.paused = false
+		close(t.resume)
+	}
+}
+
+// Called by the poll loop between two polls.
+func (t *ClientTransport) parkIfPaused() (resume <-chan struct{}) {
+	t.pauseMu.Lock()
+	defer t.pauseMu.Unlock()
+	if !t.paused {
+		return nil
+	}
+	select {
+	case <-t.idle:
+	default:
+		close(t.idle)
+	}
+	return t.resume
 }
 
 func (t *ClientTransport) Discard() {
